@@ -12,7 +12,18 @@ Operation histories (plain data) are interpreted against the real stack:
   link, possibly a link cut) is issued, -1 runs to quiescence where the invariants are checked.
 * raw: one Device and a vlib.world.RawPeer that does the credit-based signalling by hand on
   CID 5 with its own CID choices (different from the CIDs Bumble allocates), re-uses CIDs after
-  closing, refuses, stays mute, and is cut off.
+  closing, refuses (no DCID / zero DCIDs / a partial acceptance), stays mute, and is cut off.
+* rawcl: one Device and a peer that does the classic signalling (CID 1: Connection / Configure / Disconnection
+  Request and Response) by hand over an LE link or a BR/EDR link, with its own CIDs (0x40 .. 0xFFFF): it opens
+  (complete configuration, stalled configuration, close during configuration), answers the DUT's opens (accept,
+  pending then accept, refuse with three result codes, pending then refuse, never, accept but never configure,
+  reject the configuration, close during configuration), leaves the DUT's Disconnection Request unanswered,
+  sends its own at the same moment, and is cut off. A directed family pairs every kind of pending operation with
+  every way its channel or link can go away.
+* directed families on the boundary of the identifier spaces: all 64 dynamic LE CIDs of one connection in use
+  (second link idle; against the raw peer with asymmetric CIDs), requests at and one below exhaustion, re-use of
+  the lowest / a middle / the highest CID; the signalling identifier (1..255) wrapping while the first request
+  of the connection is still unanswered.
 
 The oracle compares the ChannelManager tables with the channels *reported open* by the channel
 objects the harness has been handed (open results, server callbacks), a small history model
@@ -34,28 +45,60 @@ from vlib import vloop, world
 PROPERTY = 'C09'
 LEVEL = 'exploration'
 RULE = (
-    'world: histories of open(le|enh x n|classic, link, end, psm)/open-to-unserved-psm/close(channel, end)/'
-    'close-by-both-ends(channel, gap)/abort(channel, end)/drain(channel, end, bytes)/cut(link | link of the last op, end)/'
-    'reconnect(link) over 1 central + 1..3 '
+    'world: histories of open(le|enh x 1..5|classic, link, end, psm)/open-by-both-ends(link, gap)/open-to-unserved-psm/'
+    'close(channel, end)/close-by-both-ends(channel, gap)/abort(channel, end)/disconnect-then-abort(channel, end, gap)/'
+    'abort(channel with a pending disconnect)/abort-peer-end-then-disconnect-then-abort(channel, gap)/'
+    'drain(channel, end, bytes)/cut(link | link of the last op, end)/reconnect(link) over 1 central + 1..3 '
     'peripherals (LE links, LE links also carrying classic channels, or BR/EDR links), 1..3 served PSMs per '
     'kind on every device, per-device order-preserving HCI delays; each op is started as a task and followed '
     'by a generated wait (0..34 ms = left in flight, -1 = run to quiescence, invariants checked; links without '
     'an operation since the last quiescence are checked also while others are busy). '
     'raw: histories of raw-peer open (own CID from a pool, LE credit-based or enhanced x n, duplicates, '
-    'unserved PSM)/raw close/DUT open (answered with a pool CID, refused, or never answered)/DUT close/DUT '
-    'abort/cut(end)/reconnect against one Device. non-trivial = an open after a close/refusal/abort on the '
+    'unserved PSM)/raw close/DUT open (answered with a pool CID, refused [3 result codes; enhanced: no DCID, zero DCIDs, '
+    'first channel accepted], or never answered)/DUT close/DUT '
+    'abort/cut(end)/reconnect against one Device. '
+    'rawcl: histories of peer open (own CID from {0x40,0x41,0x55,0x100,0xFFFF}; configuration completed | stalled | '
+    'closed during configuration)/peer open to an unserved PSM/peer close (of an open, a configuring or a '
+    'DUT-closing channel)/DUT open answered ok | pending+ok | refused (3 codes) | pending+refused | never | accepted but '
+    'never configured | configuration rejected | closed during configuration/DUT close answered | unanswered/DUT '
+    'abort/crossing Disconnection Requests/cut(end)/reconnect, classic signalling by hand over an LE or a BR/EDR '
+    'link; plus enumerated: {pending open: unanswered, unconfigured, configuration rejected; unanswered close; '
+    'stalled inbound open} x {cut by either end, peer close, abort} x carrier, each followed by re-opens. '
+    'enumerated boundary families (every shard runs them): fill_world = 2 transports x who opens (3) x which channel is '
+    'closed at exhaustion (lowest/middle/highest CID) x who closes: 64 CIDs of one of two links in use, opens at '
+    'exhaustion, into the last free CID, 3 asked with 2 free, the other link, cut, reconnect (36); fill_raw '
+    '(6): the same against the raw peer; wrap_raw (4): first request of the connection unanswered, 254 further '
+    'signalling identifiers, the request that meets identifier 1 again (le|enh x le|enh), cut. '
+    'cutpoints (sharded): (transport, kind) in {le:le, le:enh, classic:cl, le+cl:cl, le+cl:le} x operation under cut '
+    '{open x3, close, close-by-both, disconnect-then-abort, drain 300} x cut t ms after its start (t = 0..34; quick: '
+    '0, 1, 3, 6, 10, 15) x cutting end x 2 HCI delay profiles, second link idle, then reconnect and re-open. '
+    'non-trivial = an open after a close/refusal/abort on the '
     'same connection, or operations in flight on two links at once, or a link cut with an operation pending, '
-    'or (raw) a CID re-used after close; distinct by (configuration, operation sequence).'
+    'or an abort of a channel whose disconnect is pending, or (raw, rawcl) a CID re-used after close; '
+    'distinct by (configuration, operation sequence).'
 )
 ASSUMPTIONS = [
     'hang = task still pending after 1900 virtual seconds of quiescence (Bumble has no L2CAP signalling timeout)',
     'operations are only issued on links whose two ends are alive when the operation starts (a cut may be in flight)',
     'channel.abort() is a local teardown: the other end legitimately stays open (an "orphan"); while an orphan '
     'exists on a link, credit-based opens on that link may be refused (source CID already allocated) and a '
-    'close of the orphan may stay pending until the link goes away',
+    'close of the orphan may stay pending until the link goes away or abort() is called on the closing end',
     'a drain on an open channel whose peer never returns credits may stay pending while channel and link live',
     'receivers install no sink, so no credits are returned: unsent data stays unsent until close/cut',
     'exhaustion of the 64 LE dynamic CIDs is a legitimate refusal',
+    'a request for n channels when fewer than n of the 64 identifiers are free is a legitimate refusal (it must leave '
+    'nothing behind); with n or more free the open must succeed',
+    'after channel.abort() the channel is not a channel any more: it must report closed and be absent from the tables, '
+    'whatever it was doing (open, or waiting for the answer to its own Disconnection Request)',
+    'rawcl: the peer never re-uses a CID it still holds (duplicate source CIDs of a classic peer are not judged); a '
+    'configuration the peer never completes or rejects leaves the open legitimately pending while channel and '
+    'link live (Bumble has no configuration timeout); a Disconnection Request the peer never answers likewise',
+    'rawcl, LE carrier: classic signalling runs on CID 1 of the LE link, as in the world variant with transport le+cl',
+    'a partially accepted enhanced request may fail as a whole or yield exactly the accepted channel',
+    'an open whose signalling identifier (1..255, cyclic per connection) is still awaited by an unanswered request of '
+    'the same connection may be refused locally ("too many concurrent connection requests"); it must leave nothing '
+    'behind and must not disturb the unanswered request',
+    'a peer does not answer a command that carries the illegal signalling identifier 0',
 ]
 SHRINK_KEYS = ('ops',)
 
@@ -136,6 +179,7 @@ class End:
         self.side = side
         self.chan = None
         self.aborted = False
+        self.abort_done = False  # the abort() call has returned
         self.close_started = False
 
 
@@ -173,7 +217,8 @@ def world_ops(max_ops):
     wait = st.sampled_from(WAITS)
     kind = st.sampled_from(['le', 'le', 'enh', 'cl'])
     sel = st.integers(0, 5)
-    open_op = st.tuples(st.just('open'), kind, link, side, st.integers(0, 2), st.integers(1, 3), wait)
+    # n (enhanced only): up to 5 channels per request, the most one request may carry
+    open_op = st.tuples(st.just('open'), kind, link, side, st.integers(0, 2), st.sampled_from([1, 2, 2, 3, 3, 4, 5]), wait)
     op = st.one_of(
         open_op,
         open_op,
@@ -187,7 +232,16 @@ def world_ops(max_ops):
         # both ends close the same channel, the second `gap` ms after the first
         st.tuples(st.just('close_both'), sel, side, st.sampled_from([0, 0, 1, 2, 3, 5]), wait),
         st.tuples(st.just('abort'), sel, side, wait),
+        # disconnect() and, `gap` ms later, abort() of the SAME end: the abort must release the close waiter
+        st.tuples(st.just('close_abort'), sel, side, st.sampled_from([0, 0, 1, 2, 3, 5]), wait),
+        # abort() of an end whose disconnect() is still pending (e.g. the unanswered close of an orphan)
+        st.tuples(st.just('abort_closing'), sel, side, wait),
+        # abort() of the peer's end, then disconnect() of this end (never answered), then abort() of this end
+        st.tuples(st.just('orphan_close_abort'), sel, side, st.sampled_from([0, 1, 3, 8]), wait),
         st.tuples(st.just('drain'), sel, side, st.sampled_from([8, 40, 300]), wait),
+        # both ends of one link open at (nearly) the same time: crossed requests, the two ends allocate differently
+        st.tuples(st.just('open_both'), kind, link, side, st.integers(0, 2), st.integers(1, 3),
+                  st.sampled_from([0, 0, 1, 2, 3]), wait),
         # link -1 = the link of the operation started last
         st.tuples(st.just('cut'), st.sampled_from([-1, -1, 0, 1, 2]), side, wait),
         st.tuples(st.just('reconnect'), link),
@@ -358,7 +412,15 @@ def run_world_case(ctx, case) -> None:
                     if report(obj) != 'open' or (match is not None and (match.close_started or match.aborted)):
                         c.racy = True
                         labels.add('closed_before_open_returned')
+                    if report(obj) == 'open' and obj.source_cid != obj.destination_cid:
+                        labels.add('asym_cids')
                 labels.add(f'open_ok:{op.kind}')
+                if op.kind != 'cl' and same_epoch and link.up:
+                    if op.in_use + op.n == LE_CIDS:
+                        # the request needed every identifier that was still free (boundary of the CID space)
+                        labels.add('open_into_last_free_cids')
+                    if max(cids_in_use(link, 0), cids_in_use(link, 1)) >= LE_CIDS:
+                        labels.add('cid_space_full')
             else:
                 excused = None
                 if not same_epoch or not link.up or link.cut_started:
@@ -388,6 +450,7 @@ def run_world_case(ctx, case) -> None:
         elif op.what == 'abort':
             if exc is not None:
                 fail(f'abort_raises/{op.end.chan.kind}/{exc_name(exc)}', f'channel.abort() raised {exc!r}')
+            op.end.abort_done = True
             if same_epoch:
                 link.history.add('abort')
         elif op.what == 'drain':
@@ -445,6 +508,10 @@ def run_world_case(ctx, case) -> None:
             if op.what == 'close':
                 e = op.end
                 other = e.chan.other(e.side)
+                if e.aborted:
+                    fail(f'waiter/close_pending/{kind_of(e)}/after_own_abort',
+                         f'channel.disconnect() still pending at quiescence although abort() was called on the same channel '
+                         f'afterwards (channel reports {report(e.obj)}, link {"alive" if link_up else "gone"})')
                 if link_up and (other is None or other.aborted):
                     labels.add('close_of_orphan_pending')
                     continue
@@ -476,6 +543,11 @@ def run_world_case(ctx, case) -> None:
                         fail_(f'state/open_on_dead_link/{kind_of(e)}', 'a channel still reports open after its link went away')
                     continue
                 touched = any(x is not None and (x.aborted or x.close_started) for x in c.ends)
+                if e.abort_done and r != 'closed':
+                    # abort() is the local teardown: whatever the channel was doing (open, or waiting for the answer
+                    # to its own Disconnection Request), it is not a channel any more
+                    fail_(f'state/not_closed_after_abort/{kind_of(e)}',
+                          f'abort() was called on a channel, it still reports {e.obj.state.name}')
                 if c.close_ok and r == 'open':
                     fail_(f'state/open_after_close/{kind_of(e)}', 'a disconnect() of the channel completed but an end still reports open')
                 if c.expect_open and not touched and None not in c.ends and r != 'open':
@@ -508,9 +580,10 @@ def run_world_case(ctx, case) -> None:
                                  f'{name} holds a channel (state {obj.state.name}) that was never reported to the application as open')
                         seen.add(id(obj))
                         r = report(obj)
-                        if r == 'closed':
+                        if r == 'closed' or e.abort_done:
                             fail_(f'tables/stale_entry/{name}/{kind_of(e)}/{situation(e)}',
-                                 f'{name} still holds a channel that reports {obj.state.name}')
+                                 f'{name} still holds a channel that reports {obj.state.name}'
+                                 + (' after abort() was called on it' if e.abort_done else ''))
                         want = obj.source_cid if name == 'channels' else obj.destination_cid
                         if cid != want:
                             fail_(f'tables/key_mismatch/{name}/{kind_of(e)}',
@@ -575,6 +648,16 @@ def run_world_case(ctx, case) -> None:
 
     def do_op(step, op):
         what = op[0]
+        if what == 'open_both':
+            kind, lk, first, psm_i, n, gap, wait = op[1:]
+            if do_op(step, ['open', kind, lk, first, psm_i, n, 0]) < 0:
+                return -1
+            link = cur['last_link']
+            loop.run_for(gap / 1000.0)
+            reap()
+            if link.up:
+                do_op(step, ['open', kind, links.index(link), 1 - first, psm_i, n, 0])
+            return wait
         if what in ('open', 'refuse'):
             kind = op[1]
             if transport == 'classic':
@@ -614,8 +697,17 @@ def run_world_case(ctx, case) -> None:
                 if kind == 'cl' and transport == 'le+cl':
                     labels.add('classic_over_le')
                 labels.add('open_by_central' if side == 0 else 'open_by_peripheral')
+                if kind == 'enh':
+                    labels.add(f'enh_n:{n}')
+                if kind != 'cl' and any(o is not link and o.up and max(cids_in_use(o, 0), cids_in_use(o, 1)) >= LE_CIDS
+                                        for o in links):
+                    labels.add('open_while_other_link_full')
+                if any(o.link is link and o.epoch == link.epoch and o.what == 'open' and o.side != side and not o.task.done()
+                       for o in pending):
+                    labels.add('crossed_opens_same_link')
             start(step, what, coro, link, side, kind=kind, n=n, history=set(link.history), others_in_flight=others,
-                  orphan_seen=(kind != 'cl' and orphan_on(link, 1 - side)))
+                  orphan_seen=(kind != 'cl' and orphan_on(link, 1 - side)),
+                  in_use=max(cids_in_use(link, 0), cids_in_use(link, 1)))
             return wait
         if what == 'close_both':
             sel, side, gap, wait = op[1], op[2], op[3], op[4]
@@ -634,6 +726,65 @@ def run_world_case(ctx, case) -> None:
                     labels.add('close_collision')
                 x.close_started = True
                 start(step, 'close', x.obj.disconnect(), x.link, x.side, end=x)
+            return wait
+        if what in ('close_abort', 'abort_closing', 'orphan_close_abort'):
+            sel, side, wait = op[1], op[2], op[-1]
+            if what == 'abort_closing':
+                cands = [o.end for o in pending
+                         if o.what == 'close' and not o.task.done() and o.side == side and not o.end.aborted
+                         and o.link.epoch == o.epoch and o.link.up]
+                e = cands[sel % len(cands)] if cands else None
+            else:
+                e = pick_end(sel, side)
+            if what == 'orphan_close_abort' and e is not None:
+                other = e.chan.other(side)
+                if other is None or report(other.obj) != 'open' or other.aborted or other.close_started:
+                    e = None
+            if e is None:
+                labels.add('noop')
+                return -1
+            link = e.link
+            if in_flight_elsewhere(link):
+                labels.add('concurrent_two_links')
+                flags['nontrivial'] = True
+
+            def abort_end(x):
+                x.aborted = True
+                link.abort_seen = True
+                for o in pending:
+                    if o.link is link and o.what == 'open' and not o.task.done():
+                        o.orphan_seen = True
+
+                async def do_abort2(obj=x.obj):
+                    obj.abort()
+
+                labels.add('abort')
+                start(step, 'abort', do_abort2(), link, x.side, end=x)
+
+            if what == 'orphan_close_abort':
+                # the peer's end is torn down locally first: this end's Disconnection Request will never be answered
+                abort_end(e.chan.other(side))
+                loop.run_for(0.008)
+                reap()
+                if not (link.up and report(e.obj) == 'open'):
+                    return wait
+            if what == 'abort_closing':
+                close_op = next(o for o in pending if o.what == 'close' and o.end is e)
+            else:
+                e.close_started = True
+                labels.add('close_by_central' if side == 0 else 'close_by_peripheral')
+                close_op = start(step, 'close', e.obj.disconnect(), link, side, end=e)
+                loop.run_for(op[3] / 1000.0)
+                reap()
+            if not close_op.task.done():
+                labels.add('abort_while_closing')
+                flags['nontrivial'] = True
+                other = e.chan.other(e.side)
+                if other is None or other.aborted or report(other.obj) != 'open':
+                    labels.add('abort_while_closing_orphan')
+            else:
+                labels.add('close_abort_too_late')
+            abort_end(e)
             return wait
         if what in ('close', 'abort', 'drain'):
             sel, side = op[1], op[2]
@@ -684,6 +835,9 @@ def run_world_case(ctx, case) -> None:
             if in_flight_on(link):
                 labels.add('cut_with_pending_op')
                 flags['nontrivial'] = True
+                for o in pending:
+                    if o.link is link and o.what not in ('cut', 'abort') and not o.task.done():
+                        labels.add(f'cut_during:{o.what}:{o.kind if o.what in ("open", "refuse") else kind_of(o.end)}')
             if any(report(e.obj) == 'open' for e in ends if e.link is link and e.epoch == link.epoch):
                 labels.add('cut_with_open_channels')
             labels.add('cut_by_central' if side == 0 else 'cut_by_peripheral')
@@ -777,8 +931,13 @@ def raw_ops(max_ops):
         st.tuples(st.just('rrefuse'), cidx),
         st.tuples(st.just('rclose'), sel),
         st.tuples(st.just('rclose'), sel),
-        st.tuples(st.just('dopen'), st.sampled_from(['le', 'le', 'enh']), st.integers(1, 3), cidx),
-        st.tuples(st.just('dopen_refused'), st.sampled_from(['le', 'enh'])),
+        st.tuples(st.just('dopen'), st.sampled_from(['le', 'le', 'enh']), st.integers(1, 5), cidx),
+        # refused by the peer: result code / DCID list shape (none, zeros, partial), channels asked for
+        st.tuples(st.just('dopen_refused'), st.just('le'), st.integers(0, 2), st.just(1)),
+        st.tuples(st.just('dopen_refused'), st.just('enh'), st.just(0), st.integers(1, 5)),
+        st.tuples(st.just('dopen_refused'), st.just('enh'), st.just(1), st.integers(1, 5)),
+        st.tuples(st.just('dopen_refused'), st.just('enh'), st.just(2), st.integers(1, 5)),
+        st.tuples(st.just('dopen'), st.sampled_from(['le', 'le', 'enh']), st.integers(1, 5), cidx),
         st.tuples(st.just('dopen_mute'), st.sampled_from(['le', 'enh'])),
         st.tuples(st.just('dclose'), sel),
         st.tuples(st.just('dabort'), sel),
@@ -832,13 +991,22 @@ def run_raw_case(ctx, case) -> None:
         except Exception:  # noqa: BLE001
             return
         peer = S['peer']
+        if frame.identifier == 0:
+            return  # 0x00 is not a signalling identifier: a conforming peer does not answer such a command
+        if isinstance(frame, (l2cap.L2CAP_LE_Credit_Based_Connection_Request, l2cap.L2CAP_Credit_Based_Connection_Request,
+                              l2cap.L2CAP_Disconnection_Request)):
+            if frame.identifier < S.get('dut_ident', 0):
+                labels.add('dut_identifier_wrapped')
+            S['dut_ident'] = frame.identifier
         if isinstance(frame, l2cap.L2CAP_LE_Credit_Based_Connection_Request):
             if S['mode'] == 'mute':
                 return
             if S['mode'] == 'refuse':
+                R = l2cap.L2CAP_LE_Credit_Based_Connection_Response.Result
+                result = [R.CONNECTION_REFUSED_LE_PSM_NOT_SUPPORTED, R.CONNECTION_REFUSED_NO_RESOURCES_AVAILABLE,
+                          R.CONNECTION_REFUSED_INSUFFICIENT_AUTHENTICATION][S.get('shape', 0) % 3]
                 peer.send(5, bytes(l2cap.L2CAP_LE_Credit_Based_Connection_Response(
-                    identifier=frame.identifier, destination_cid=0, mtu=23, mps=23, initial_credits=0,
-                    result=l2cap.L2CAP_LE_Credit_Based_Connection_Response.Result.CONNECTION_REFUSED_LE_PSM_NOT_SUPPORTED)))
+                    identifier=frame.identifier, destination_cid=0, mtu=23, mps=23, initial_credits=0, result=result)))
                 return
             cid_ = free_pool_cid(S['next_cidx'])
             model.append({'raw': cid_, 'dut': frame.source_cid, 'obj': None, 'by': 'dut'})
@@ -848,9 +1016,20 @@ def run_raw_case(ctx, case) -> None:
             if S['mode'] == 'mute':
                 return
             if S['mode'] == 'refuse':
+                R = l2cap.L2CAP_Credit_Based_Connection_Response.Result
+                shape = S.get('shape', 0) % 3
+                if shape == 0:  # no DCID listed at all (what Bumble's own responder sends)
+                    dcids, result = [], R.ALL_CONNECTIONS_REFUSED_SPSM_NOT_SUPPORTED
+                elif shape == 1:  # one zero DCID per requested channel
+                    dcids, result = [0] * len(frame.source_cid), R.ALL_CONNECTIONS_REFUSED_INSUFFICIENT_AUTHENTICATION
+                else:  # partial: the first channel gets a DCID, the others are refused
+                    first = free_pool_cid(0)
+                    dcids = [first] + [0] * (len(frame.source_cid) - 1)
+                    result = R.SOME_CONNECTIONS_REFUSED_INSUFFICIENT_RESOURCES_AVAILABLE
+                    S['partial'] = (first, frame.source_cid[0])
                 peer.send(5, bytes(l2cap.L2CAP_Credit_Based_Connection_Response(
-                    identifier=frame.identifier, destination_cid=[], mtu=64, mps=64, initial_credits=0,
-                    result=l2cap.L2CAP_Credit_Based_Connection_Response.Result.ALL_CONNECTIONS_REFUSED_SPSM_NOT_SUPPORTED)))
+                    identifier=frame.identifier, destination_cid=dcids, mtu=64, mps=64, initial_credits=2 if shape == 2 else 0,
+                    result=result)))
                 return
             dcids = []
             for k, scid in enumerate(frame.source_cid):
@@ -877,6 +1056,8 @@ def run_raw_case(ctx, case) -> None:
         S['conn'] = conn
         S['alive'] = True
         S['ident'] = 0
+        S['dut_ident'] = 0
+        S['refused_before'] = False
         used_cids.clear()
         conn.on('disconnection', lambda reason: S.update(alive=False))
 
@@ -982,7 +1163,8 @@ def run_raw_case(ctx, case) -> None:
         conn = S['conn']
         dev = S['w'][0].device
         if what in ('ropen', 'rrefuse'):
-            cid = POOL[op[1]]
+            # pool index; directed cases: -1 = the first CID the peer has free, >= 0x40 = that CID literally
+            cid = free_pool_cid(0) if op[1] < 0 else (POOL[op[1]] if op[1] < len(POOL) else op[1])
             psm = LE_PSMS[op[2] % npsm] if what == 'ropen' else LE_UNSERVED
             dup = cid in raw_cids()
             i = ident()
@@ -1004,6 +1186,10 @@ def run_raw_case(ctx, case) -> None:
                 if rsp.result == RES_LE_OK:
                     model.append({'raw': cid, 'dut': rsp.destination_cid, 'obj': dut_obj_for(rsp.destination_cid), 'by': 'raw'})
             else:
+                if rsp.result != RES_LE_OK and len(model) >= LE_CIDS:
+                    labels.add('open_excused:cid_exhaustion')
+                    labels.add('raw_refused_at_exhaustion')
+                    return
                 if rsp.result != RES_LE_OK:
                     fail(f'open_failed/raw_le/{l2cap.L2CAP_LE_Credit_Based_Connection_Response.Result(rsp.result).name}',
                          f'peer request with free source CID 0x{cid:02X} to a served PSM refused '
@@ -1012,6 +1198,9 @@ def run_raw_case(ctx, case) -> None:
                     fail('cid/duplicate_local', f'DUT allocated local CID 0x{rsp.destination_cid:02X} which is already in use')
                 model.append({'raw': cid, 'dut': rsp.destination_cid, 'obj': dut_obj_for(rsp.destination_cid), 'by': 'raw'})
                 labels.add('raw_open_ok')
+                if len(model) == LE_CIDS:
+                    labels.add('open_into_last_free_cids')
+                    labels.add('cid_space_full')
             return
         if what == 'ropen_enh':
             cids = [POOL[k] for k in op[1]]
@@ -1032,6 +1221,9 @@ def run_raw_case(ctx, case) -> None:
                 if rsp.result == RES_ENH_OK:
                     for scid, dcid in zip(cids, rsp.destination_cid):
                         model.append({'raw': scid, 'dut': dcid, 'obj': dut_obj_for(dcid), 'by': 'raw'})
+                return
+            if rsp.result != RES_ENH_OK and len(model) + len(cids) > LE_CIDS:
+                labels.add('open_excused:cid_exhaustion')
                 return
             if rsp.result != RES_ENH_OK or len(rsp.destination_cid) != len(cids):
                 fail(f'open_failed/raw_enh/{l2cap.L2CAP_Credit_Based_Connection_Response.Result(rsp.result).name}',
@@ -1060,6 +1252,12 @@ def run_raw_case(ctx, case) -> None:
         if what in ('dopen', 'dopen_refused', 'dopen_mute'):
             kind = op[1]
             n = op[2] if (what == 'dopen' and kind == 'enh') else 1
+            if what == 'dopen_refused':
+                # ('dopen_refused', kind[, shape, n]): shape of the refusal (result code, DCID list), channels asked for
+                S['shape'] = op[2] if len(op) > 2 else 0
+                S['partial'] = None
+                if kind == 'enh' and len(op) > 3:
+                    n = op[3]
             S['mode'] = {'dopen': 'answer', 'dopen_refused': 'refuse', 'dopen_mute': 'mute'}[what]
             S['next_cidx'] = op[3] if what == 'dopen' else 0
             if kind == 'le':
@@ -1069,6 +1267,9 @@ def run_raw_case(ctx, case) -> None:
             if used_cids:
                 flags['nontrivial'] = True
                 labels.add('dut_reopen_after_close')
+            if S.get('refused_before') and what == 'dopen':
+                flags['nontrivial'] = True
+                labels.add('dut_reopen_after_refusal')
             before = len(model)
             task = loop.create_task(coro)
             quiesce()
@@ -1081,9 +1282,31 @@ def run_raw_case(ctx, case) -> None:
                 fail(f'waiter/{what}_pending/live', 'DUT open still pending although the peer answered')
             exc = asyncio.CancelledError() if task.cancelled() else task.exception()
             if what == 'dopen_refused':
+                partial = S.get('partial') if kind == 'enh' else None
+                labels.add(f'refusal_shape:{kind}:{S["shape"] % 3}')
+                if exc is None and partial is not None:
+                    # partial acceptance: the statement leaves open whether the open as a whole fails; what the DUT
+                    # reports open must be exactly the accepted channel, and it is then a channel like any other
+                    objs = task.result()
+                    opened = [o for o in objs if report(o) == 'open']
+                    if [(o.destination_cid, o.source_cid) for o in opened] != [partial]:
+                        fail('refuse/partial_wrong_channels', f'peer accepted 1 of {n} channels, DUT reports {len(opened)} open')
+                    model.append({'raw': partial[0], 'dut': partial[1], 'obj': opened[0], 'by': 'dut'})
+                    labels.add('partial_accepted_by_dut')
+                    return
                 if exc is None:
                     fail('refuse/succeeded/dut', 'DUT open succeeded although the peer refused it')
                 labels.add('refused')
+                S['refused_before'] = True  # a refusal is history too: the next DUT open is an open after a refusal
+                return
+            if (exc is not None and len(model) - before == 0 and 'too many concurrent connection requests' in str(exc)
+                    and any(w_ == 'dopen_mute' and not t.done() for w_, t in pending)):
+                # the signalling identifier this request would carry is still awaited by an unanswered request
+                labels.add('open_excused:identifier_awaited')
+                return
+            if exc is not None and len(model) - before == 0 and before + n > LE_CIDS:
+                # the DUT has not enough free identifiers left: a legitimate local refusal, nothing was sent
+                labels.add('open_excused:cid_exhaustion')
                 return
             if exc is not None:
                 del model[before:]
@@ -1095,6 +1318,11 @@ def run_raw_case(ctx, case) -> None:
                     if c['dut'] == obj.source_cid:
                         c['obj'] = obj
             labels.add(f'dut_open_ok:{kind}')
+            if kind == 'enh':
+                labels.add(f'enh_n:{n}')
+            if len(model) == LE_CIDS:
+                labels.add('open_into_last_free_cids')
+                labels.add('cid_space_full')
             return
         if what in ('dclose', 'dabort'):
             cands = [c for c in model if c['obj'] is not None and report(c['obj']) == 'open']
@@ -1112,6 +1340,8 @@ def run_raw_case(ctx, case) -> None:
                     c['obj'].abort()
                 except Exception as e:  # noqa: BLE001
                     fail(f'abort_raises/le/{exc_name(e)}', f'channel.abort() raised {e!r}')
+                if report(c['obj']) != 'closed':
+                    fail('state/not_closed_after_abort/le', f'abort() was called on a channel, it still reports {c["obj"].state.name}')
                 # the raw peer drops its end as well (its own policy), so the CID pair is free again
                 model.remove(c)
                 used_cids.add(c['raw'])
@@ -1168,19 +1398,709 @@ def run_raw_case(ctx, case) -> None:
 
 
 # ---------------------------------------------------------------------------
+# raw classic peer variant
+# ---------------------------------------------------------------------------
+CL_POOL = [0x40, 0x41, 0x55, 0x0100, 0xFFFF]
+CRES = l2cap.L2CAP_Connection_Response.Result
+CFGRES = l2cap.L2CAP_Configure_Response.Result
+CL_REFUSALS = [CRES.CONNECTION_REFUSED_PSM_NOT_SUPPORTED, CRES.CONNECTION_REFUSED_SECURITY_BLOCK,
+               CRES.CONNECTION_REFUSED_NO_RESOURCES_AVAILABLE]
+DOPEN_ANSWERS = ['ok', 'pending_ok', 'refuse', 'pending_refuse', 'mute', 'config_mute', 'config_reject', 'close_in_config']
+ROPEN_MODES = ['full', 'stall', 'close_in_config']
+MTU_OPTION = l2cap.L2CAP_Control_Frame.encode_configuration_options(
+    [(l2cap.L2CAP_Configure_Request.ParameterType.MTU, (672).to_bytes(2, 'little'))])
+
+
+def rawcl_ops(max_ops):
+    cidx = st.integers(0, len(CL_POOL) - 1)
+    psm = st.integers(0, 2)
+    sel = st.integers(0, 5)
+    def ropen(mode):
+        return st.tuples(st.just('ropen'), cidx, psm, st.just(mode))
+
+    def dopen(answer):
+        return st.tuples(st.just('dopen'), psm, st.just(answer), cidx, st.integers(0, 2))
+
+    # weights by repetition; one alternative per peer behaviour (sampled_from inside a tuple is drawn very unevenly)
+    op = st.one_of(
+        ropen('full'), ropen('full'), ropen('full'), ropen('stall'), ropen('close_in_config'),
+        st.tuples(st.just('rrefuse'), cidx),
+        st.tuples(st.just('rclose'), sel), st.tuples(st.just('rclose'), sel), st.tuples(st.just('rclose'), sel),
+        dopen('ok'), dopen('ok'), dopen('ok'),
+        *[dopen(a) for a in DOPEN_ANSWERS[1:]],
+        st.tuples(st.just('dclose'), sel, st.just('ok')), st.tuples(st.just('dclose'), sel, st.just('ok')),
+        st.tuples(st.just('dclose'), sel, st.just('ok')), st.tuples(st.just('dclose'), sel, st.just('mute')),
+        st.tuples(st.just('dabort'), sel), st.tuples(st.just('dabort'), sel),
+        st.tuples(st.just('collide'), sel), st.tuples(st.just('collide'), sel),
+        st.tuples(st.just('cut'), st.integers(0, 1)), st.tuples(st.just('cut'), st.integers(0, 1)),
+        st.just(('reconnect',)),
+    )
+    return st.fixed_dictionaries({
+        'carrier': st.sampled_from(['le', 'bredr']),
+        'npsm': st.integers(1, 3),
+        'ops': st.lists(op, min_size=2, max_size=max_ops),
+    })
+
+
+def run_rawcl_case(ctx, case) -> None:
+    """One Device against a peer that does the BR/EDR-style signalling (CID 1: Connection / Configure /
+    Disconnection) by hand, with its own CID choices, over an LE link or a BR/EDR link. The peer is a second
+    node of the World whose own channel manager is cut off from the inbound PDUs (harness side only)."""
+    carrier = case['carrier']
+    npsm = int(case['npsm'])
+    ops = [_plain(o) for o in case['ops']]
+    loop = vloop.new_loop()
+    loop.max_iterations = 400_000
+    labels = set()
+    flags = {'nontrivial': False}
+    cur = {'step': -1, 'last': 'start'}
+    S: dict = {'alive': False, 'ident': 0, 'answer': 'ok', 'dmode': 'ok', 'cidx': 0, 'code': 0, 'history': set()}
+    model: list[dict] = []   # channels the peer holds or is setting up: raw, dut, by, st, cfg, want, obj, task
+    ropens: dict = {}        # identifier -> entry of a peer request awaiting the Connection Response
+    server_objs: list = []
+    known_objs: list = []    # every DUT channel object the harness has been handed
+    pending: list = []       # (what, task, entry)
+    used_cids: set = set()
+    inbox: list = []
+
+    def fail(sig, what):
+        ctx.fail(sig, what, {'kind': 'rawcl', 'carrier': carrier, 'npsm': npsm, 'ops': ops[: cur['step'] + 1]})
+        raise _Stop()
+
+    def ident():
+        S['ident'] = S['ident'] % 255 + 1
+        return S['ident']
+
+    def raw_cids():
+        return {c['raw'] for c in model if c['raw'] is not None}
+
+    def free_pool_cid(start):
+        for k in range(len(CL_POOL)):
+            cid = CL_POOL[(start + k) % len(CL_POOL)]
+            if cid not in raw_cids():
+                return cid
+        for cid in range(0x60, 0x1000):
+            if cid not in raw_cids():
+                return cid
+        return None
+
+    def send(frame):
+        S['w'][1].host.send_l2cap_pdu(S['pconn'].handle, l2cap.L2CAP_SIGNALING_CID, bytes(frame))
+
+    def forget(entry, why):
+        if entry in model:
+            model.remove(entry)
+        entry['st'] = 'gone'
+        if entry['raw'] is not None:
+            used_cids.add(entry['raw'])
+        S['history'].add(why)
+
+    def on_peer_pdu(connection, cid, pdu):
+        if cid != l2cap.L2CAP_SIGNALING_CID or connection is not S.get('pconn'):
+            return
+        try:
+            frame = l2cap.L2CAP_Control_Frame.from_bytes(bytes(pdu))
+        except Exception:  # noqa: BLE001
+            return
+        if frame.identifier == 0:
+            return  # 0x00 is not a signalling identifier: a conforming peer does not answer such a command
+        if isinstance(frame, l2cap.L2CAP_Connection_Request):  # the DUT opens
+            answer = S['answer']
+            if any(c['dut'] == frame.source_cid for c in model):
+                inbox.append(('dup_local', frame.source_cid))
+            entry = {'raw': None, 'dut': frame.source_cid, 'by': 'dut', 'st': 'connecting', 'cfg': 'mute', 'want': 'limbo',
+                     'obj': None, 'task': None}
+            S['dopen_entry'] = entry
+            if answer == 'mute':
+                model.append(entry)
+                return
+            if answer in ('pending_ok', 'pending_refuse'):
+                send(l2cap.L2CAP_Connection_Response(identifier=frame.identifier, destination_cid=0,
+                                                     source_cid=frame.source_cid, result=CRES.CONNECTION_PENDING, status=1))
+            if answer in ('refuse', 'pending_refuse'):
+                entry['st'] = 'gone'
+                send(l2cap.L2CAP_Connection_Response(identifier=frame.identifier, destination_cid=0, source_cid=frame.source_cid,
+                                                     result=CL_REFUSALS[S['code'] % len(CL_REFUSALS)], status=0))
+                return
+            entry['raw'] = free_pool_cid(S['cidx'])
+            entry['st'] = 'config'
+            entry['cfg'] = {'config_mute': 'mute', 'config_reject': 'reject'}.get(answer, 'ok')
+            entry['want'] = 'open' if answer in ('ok', 'pending_ok') else 'limbo'
+            model.append(entry)
+            send(l2cap.L2CAP_Connection_Response(identifier=frame.identifier, destination_cid=entry['raw'],
+                                                 source_cid=frame.source_cid, result=CRES.CONNECTION_SUCCESSFUL, status=0))
+            if answer == 'close_in_config':
+                i = ident()
+                S['close_ident'] = i
+                send(l2cap.L2CAP_Disconnection_Request(identifier=i, destination_cid=entry['dut'], source_cid=entry['raw']))
+                forget(entry, 'close')
+            elif answer != 'config_mute':
+                send(l2cap.L2CAP_Configure_Request(identifier=ident(), destination_cid=entry['dut'], flags=0, options=MTU_OPTION))
+        elif isinstance(frame, l2cap.L2CAP_Connection_Response):  # answer to a request of the peer
+            entry = ropens.get(frame.identifier)
+            inbox.append(frame)
+            if entry is None or frame.result == CRES.CONNECTION_PENDING:
+                return
+            del ropens[frame.identifier]
+            if frame.result != CRES.CONNECTION_SUCCESSFUL:
+                forget(entry, 'refusal')
+                return
+            entry['dut'] = frame.destination_cid
+            entry['st'] = 'config'
+            if entry['mode'] == 'full':
+                send(l2cap.L2CAP_Configure_Request(identifier=ident(), destination_cid=entry['dut'], flags=0, options=MTU_OPTION))
+            elif entry['mode'] == 'close_in_config':
+                i = ident()
+                S['close_ident'] = i
+                send(l2cap.L2CAP_Disconnection_Request(identifier=i, destination_cid=entry['dut'], source_cid=entry['raw']))
+                forget(entry, 'close')
+        elif isinstance(frame, l2cap.L2CAP_Configure_Request):
+            entry = next((c for c in model if c['raw'] == frame.destination_cid), None)
+            if entry is None or entry['cfg'] == 'mute':
+                return
+            if entry['cfg'] == 'ok':
+                send(l2cap.L2CAP_Configure_Response(identifier=frame.identifier, source_cid=entry['dut'], flags=0,
+                                                    result=CFGRES.SUCCESS, options=frame.options))
+            else:
+                send(l2cap.L2CAP_Configure_Response(identifier=frame.identifier, source_cid=entry['dut'], flags=0,
+                                                    result=CFGRES.FAILURE_REJECTED, options=b''))
+        elif isinstance(frame, l2cap.L2CAP_Disconnection_Request):  # the DUT closes: destination = our CID, source = its CID
+            entry = next((c for c in model if c['raw'] == frame.destination_cid and c['dut'] == frame.source_cid), None)
+            if entry is None:
+                return
+            if S['dmode'] == 'mute':
+                entry['st'] = 'closing'
+                return
+            forget(entry, 'close')
+            send(l2cap.L2CAP_Disconnection_Response(identifier=frame.identifier, destination_cid=frame.destination_cid,
+                                                    source_cid=frame.source_cid))
+        elif isinstance(frame, l2cap.L2CAP_Configure_Response):
+            pass
+        else:
+            inbox.append(frame)
+
+    def on_server_channel(ch):
+        server_objs.append(ch)
+        known_objs.append(ch)
+
+    async def connect():
+        w = S['w']
+        if carrier == 'bredr':
+            conn, pconn = await w.connect_classic(0, 1)
+        else:
+            conn, pconn = await w.connect_le(0, 1)
+        S['conn'], S['pconn'] = conn, pconn
+        S['alive'] = True
+        S['ident'] = 0
+        S['history'] = set()
+        used_cids.clear()
+        ropens.clear()
+        conn.on('disconnection', lambda reason: S.update(alive=False))
+
+    async def setup():
+        w = world.World(2, classic=(carrier == 'bredr'))
+        S['w'] = w
+        await w.power_on()
+        w[1].device.l2cap_channel_manager.on_pdu = on_peer_pdu  # the peer's own L2CAP never sees a PDU
+        for k in range(npsm):
+            w[0].device.create_l2cap_server(l2cap.ClassicChannelSpec(psm=CL_PSMS[k]), handler=on_server_channel)
+        await connect()
+
+    def quiesce():
+        loop.run_for(QUIESCE)
+
+    def take_response(cls, identifier):
+        for f in list(inbox):
+            if isinstance(f, cls) and f.identifier == identifier:
+                inbox.remove(f)
+                return f
+        return None
+
+    def server_obj_for(dut_cid):
+        for obj in reversed(server_objs):
+            if obj.connection is S['conn'] and obj.source_cid == dut_cid:
+                return obj
+        return None
+
+    def check():
+        m = S['w'][0].device.l2cap_channel_manager
+        conn = S['conn']
+        h = conn.handle
+        last = cur['last']
+        for f in list(inbox):
+            if isinstance(f, tuple) and f[0] == 'dup_local':
+                fail('cid/duplicate_local', f'DUT opened a channel with local CID 0x{f[1]:04X} which another channel of the connection still uses')
+        # waiters: excused only while the channel they wait on exists and its link lives
+        for item in list(pending):
+            what, task, entry = item
+            if task.done():
+                pending.remove(item)
+                continue
+            if S['alive'] and entry is not None and entry in model and (
+                    (what == 'dopen' and entry['st'] in ('connecting', 'config') and entry['want'] == 'limbo')
+                    or (what == 'dclose' and entry['st'] == 'closing')):
+                continue
+            sit = 'link_down' if not S['alive'] else ('channel_gone' if (entry is None or entry not in model) else 'live')
+            fail(f'waiter/{what}_pending/cl/{sit}', f'DUT classic {what} still pending at quiescence ({sit}, after {last})')
+        if not S['alive']:
+            for name in ('channels', 'le_coc_channels', 'pending_credit_based_connections'):
+                for hh, entries in getattr(m, name).items():
+                    if entries:
+                        fail(f'tables/dead_link_entry/{name}', f'{name} still holds {len(entries)} entr(y/ies) for a connection that is gone')
+            for obj in known_objs:
+                if report(obj) == 'open':
+                    fail('state/open_on_dead_link/cl', 'a channel still reports open after its link went away')
+            return
+        table = m.channels.get(h, {})
+        allowed = {c['dut'] for c in model if c['dut'] is not None}
+        required = {c['dut'] for c in model if c['st'] == 'open'}
+        local = [c['dut'] for c in model if c['dut'] is not None]
+        if len(local) != len(set(local)):
+            fail('cid/duplicate_local', f'DUT uses one local CID for two channels: {[hex(x) for x in sorted(local)]}')
+        for cid, obj in table.items():
+            if cid != obj.source_cid:
+                fail('tables/key_mismatch/channels/rawcl', f'channels files a channel under CID {cid}, but its source CID is {obj.source_cid}')
+            if report(obj) == 'closed':
+                fail(f'tables/stale_entry/channels/rawcl/after_{last}', f'channels still holds a channel that reports {obj.state.name}')
+            if cid not in allowed:
+                fail(f'tables/stale_entry/channels/rawcl/after_{last}',
+                     f'channels holds local CID 0x{cid:04X} (state {obj.state.name}); the channels that exist have '
+                     f'{[hex(x) for x in sorted(allowed)]}')
+        for cid in required:
+            if cid not in table:
+                fail('tables/missing_entry/channels/rawcl', f'open channel with local CID 0x{cid:04X} is missing from channels')
+        for c in model:
+            if c['st'] == 'open' and (c['obj'] is None or report(c['obj']) != 'open'):
+                state = c['obj'].state.name if c['obj'] is not None else 'no channel object'
+                fail('state/not_open/rawcl', f'an opened, untouched channel reports {state}')
+        live_objs = {id(c['obj']) for c in model if c['obj'] is not None}
+        for obj in known_objs:
+            if id(obj) not in live_objs and report(obj) == 'open':
+                fail(f'state/open_after_close/rawcl/after_{last}', 'a channel that was closed, refused or aborted still reports open')
+        if m.le_coc_channels.get(h):
+            fail('tables/unknown_entry/le_coc_channels/rawcl', 'le_coc_channels holds an entry although only classic channels exist')
+        for name in ('channels', 'le_coc_channels', 'pending_credit_based_connections'):
+            for hh, entries in getattr(m, name).items():
+                if hh != h and entries:
+                    fail(f'tables/dead_link_entry/{name}', f'{name} still holds entries for a connection that is gone')
+
+    def settle_opened(entry, who):
+        """After the handshake of an open that both sides completed: the DUT's channel must be open."""
+        if entry['obj'] is None:
+            entry['obj'] = server_obj_for(entry['dut'])
+            if entry['obj'] is None:
+                fail('model/server_channel_not_delivered', 'the peer\'s accepted request produced no channel at the DUT\'s server')
+        entry['st'] = 'open'
+        labels.add(f'rawcl_{who}_open_ok')
+        if entry['raw'] != entry['dut']:
+            labels.add('rawcl_asym_cids')
+
+    def do_op(op):
+        what = op[0]
+        cur['last'] = what
+        if what == 'reconnect':
+            if S['alive']:
+                labels.add('noop')
+                return
+            model.clear()
+            try:
+                loop.complete(connect(), horizon=120.0)
+            except (vloop.Stalled, vloop.HorizonExceeded, vloop.BudgetExceeded) as e:
+                fail(f'link/reconnect_failed/{type(e).__name__}', 'could not re-establish the link')
+            labels.add('reconnect')
+            return
+        if not S['alive']:
+            labels.add('noop')
+            return
+        conn = S['conn']
+        if what in ('ropen', 'rrefuse'):
+            cid = free_pool_cid(op[1])  # never a CID the peer still uses (a duplicate is the peer's own fault)
+            psm = CL_PSMS[op[2] % npsm] if what == 'ropen' else CL_UNSERVED
+            mode = op[3] if what == 'ropen' else 'full'
+            cur['last'] = f'{what}_{mode}' if what == 'ropen' else what
+            i = ident()
+            if what == 'ropen' and cid in used_cids:
+                labels.add('rawcl_cid_reuse')
+                flags['nontrivial'] = True
+            if what == 'ropen' and S['history']:
+                flags['nontrivial'] = True
+                for hname in S['history']:
+                    labels.add(f'rawcl_reopen_after_{hname}')
+            entry = {'raw': cid, 'dut': None, 'by': 'raw', 'st': 'connecting', 'cfg': 'ok' if mode == 'full' else 'mute',
+                     'want': 'open' if mode == 'full' else 'limbo', 'mode': mode, 'obj': None, 'task': None}
+            model.append(entry)
+            ropens[i] = entry
+            seen = len(server_objs)
+            send(l2cap.L2CAP_Connection_Request(identifier=i, psm=psm, source_cid=cid))
+            quiesce()
+            rsp = take_response(l2cap.L2CAP_Connection_Response, i)
+            while rsp is not None and rsp.result == CRES.CONNECTION_PENDING:
+                rsp = take_response(l2cap.L2CAP_Connection_Response, i)
+            if rsp is None:
+                forget(entry, 'refusal')
+                fail(f'raw/no_response/cl_{what}', 'no Connection Response to the peer\'s Connection Request')
+            if what == 'rrefuse':
+                if rsp.result == CRES.CONNECTION_SUCCESSFUL:
+                    fail('refuse/succeeded/cl', 'a Connection Request for a PSM nobody serves was accepted')
+                if len(server_objs) != seen:
+                    fail('refuse/server_called/cl', 'a refused Connection Request reached a server')
+                labels.add('refused')
+                return
+            if rsp.result != CRES.CONNECTION_SUCCESSFUL:
+                fail(f'open_failed/rawcl_peer/{CRES(rsp.result).name}',
+                     f'peer Connection Request with free source CID 0x{cid:04X} to a served PSM refused '
+                     f'(earlier on this connection: {"+".join(sorted(S["history"])) or "fresh"})')
+            if mode == 'full':
+                settle_opened(entry, 'peer')
+            elif mode == 'stall':
+                entry['obj'] = server_obj_for(entry['dut'])
+                labels.add('rawcl_peer_open_stalled')
+            else:
+                if take_response(l2cap.L2CAP_Disconnection_Response, S['close_ident']) is None:
+                    fail('raw/no_response/cl_close_in_config', 'no Disconnection Response for a channel closed during configuration')
+                labels.add('rawcl_closed_in_config')
+            return
+        if what == 'rclose':
+            cands = [c for c in model if c['raw'] is not None and c['dut'] is not None]
+            if not cands:
+                labels.add('noop')
+                return
+            c = cands[op[1] % len(cands)]
+            cur['last'] = f'rclose_{c["st"]}'
+            i = ident()
+            send(l2cap.L2CAP_Disconnection_Request(identifier=i, destination_cid=c['dut'], source_cid=c['raw']))
+            labels.add(f'rawcl_peer_close:{c["st"]}')
+            forget(c, 'close')
+            quiesce()
+            if take_response(l2cap.L2CAP_Disconnection_Response, i) is None:
+                fail('raw/no_response/cl_rclose', f'no Disconnection Response to the peer\'s request for a channel in state {c["st"]}')
+            return
+        if what == 'dopen':
+            answer = op[2]
+            cur['last'] = f'dopen_{answer}'
+            S['answer'], S['cidx'], S['code'] = answer, op[3], op[4]
+            S['dopen_entry'] = None
+            if S['history']:
+                flags['nontrivial'] = True
+                for hname in S['history']:
+                    labels.add(f'rawcl_reopen_after_{hname}')
+            task = loop.create_task(conn.create_l2cap_channel(l2cap.ClassicChannelSpec(psm=CL_PSMS[op[1] % npsm])))
+            quiesce()
+            S['answer'] = 'ok'
+            entry = S['dopen_entry']
+            if entry is None:
+                if not task.done():
+                    fail('waiter/dopen_pending/cl/no_request', 'DUT classic open sent no Connection Request and is still pending')
+                fail(f'open_failed/rawcl_dut/{exc_name(task.exception())}', 'DUT classic open failed before any request was sent')
+            entry['task'] = task
+            labels.add(f'rawcl_answer:{answer}')
+            if answer in ('ok', 'pending_ok'):
+                if not task.done():
+                    fail('waiter/dopen_pending/cl/answered', 'DUT classic open still pending although the peer accepted and configured it')
+                exc = asyncio.CancelledError() if task.cancelled() else task.exception()
+                if exc is not None:
+                    forget(entry, 'refusal')
+                    fail(f'open_failed/rawcl_dut/{exc_name(exc)}',
+                         f'DUT classic open accepted and configured by the peer failed with {exc!r} '
+                         f'(earlier on this connection: {"+".join(sorted(S["history"])) or "fresh"})')
+                entry['obj'] = task.result()
+                known_objs.append(entry['obj'])
+                if entry['obj'].source_cid != entry['dut'] or entry['obj'].destination_cid != entry['raw']:
+                    fail('model/wrong_cids', 'the channel returned by the open does not carry the CID pair that was negotiated')
+                settle_opened(entry, 'dut')
+                return
+            if answer in ('refuse', 'pending_refuse', 'close_in_config'):
+                if not task.done():
+                    fail(f'waiter/dopen_pending/cl/{answer}', f'DUT classic open still pending after the peer\'s {answer}')
+                if not task.cancelled() and task.exception() is None:
+                    fail(f'refuse/succeeded/cl_dut/{answer}', f'DUT classic open succeeded although the peer answered {answer}')
+                if answer == 'close_in_config':
+                    if take_response(l2cap.L2CAP_Disconnection_Response, S['close_ident']) is None:
+                        fail('raw/no_response/cl_close_in_config', 'no Disconnection Response for a channel closed during configuration')
+                    labels.add('rawcl_closed_in_config')
+                else:
+                    S['history'].add('refusal')
+                    labels.add('refused')
+                return
+            # mute / config_mute / config_reject: pending is legitimate while channel and link exist
+            pending.append(('dopen', task, entry))
+            labels.add('rawcl_open_unanswered')
+            return
+        if what in ('dclose', 'collide'):
+            cands = [c for c in model if c['st'] == 'open' and c['obj'] is not None and report(c['obj']) == 'open']
+            if not cands:
+                labels.add('noop')
+                return
+            c = cands[op[1] % len(cands)]
+            S['dmode'] = op[2] if what == 'dclose' else 'ok'
+            cur['last'] = f'dclose_{S["dmode"]}' if what == 'dclose' else what
+            task = loop.create_task(c['obj'].disconnect())
+            pending.append(('dclose', task, c))
+            if what == 'collide':
+                i = ident()
+                send(l2cap.L2CAP_Disconnection_Request(identifier=i, destination_cid=c['dut'], source_cid=c['raw']))
+                forget(c, 'close')
+                labels.add('rawcl_collision')
+            quiesce()
+            S['dmode'] = 'ok'
+            if what == 'collide':
+                if take_response(l2cap.L2CAP_Disconnection_Response, i) is None:
+                    fail('raw/no_response/cl_collide', 'no Disconnection Response to the peer\'s request that crossed the DUT\'s own')
+            elif c['st'] == 'closing':
+                labels.add('rawcl_close_unanswered')
+            else:
+                labels.add('rawcl_dut_close')
+            return
+        if what == 'dabort':
+            cands = [c for c in model if c['obj'] is not None and c['st'] in ('open', 'closing', 'config')]
+            if not cands:
+                labels.add('noop')
+                return
+            c = cands[op[1] % len(cands)]
+            cur['last'] = f'dabort_{c["st"]}'
+            labels.add(f'rawcl_abort:{c["st"]}')
+            try:
+                c['obj'].abort()
+            except Exception as e:  # noqa: BLE001
+                fail(f'abort_raises/cl/{exc_name(e)}', f'channel.abort() raised {e!r}')
+            forget(c, 'abort')  # the peer drops its end as well (its own policy)
+            quiesce()
+            if report(c['obj']) != 'closed':
+                fail('state/not_closed_after_abort/cl', f'abort() was called on a channel, it still reports {c["obj"].state.name}')
+            return
+        if what == 'cut':
+            if any(not t.done() for _w, t, _e in pending):
+                labels.add('rawcl_cut_with_pending')
+                labels.add('cut_with_pending_op')
+                flags['nontrivial'] = True
+            if model:
+                labels.add('cut_with_open_channels')
+            if op[1] == 0:
+                task = loop.create_task(conn.disconnect())
+                labels.add('cut_by_dut')
+            else:
+                task = loop.create_task(S['pconn'].disconnect())
+                labels.add('cut_by_peer')
+            quiesce()
+            if S['alive']:
+                fail('link/cut_incomplete', 'the DUT never reported the disconnection')
+            if not task.done():
+                fail('waiter/cut_pending', 'the link disconnection did not finish')
+            for c in list(model):
+                forget(c, 'cut')
+            return
+        raise ValueError(what)
+
+    try:
+        try:
+            loop.complete(setup(), horizon=600.0)
+        except (vloop.Stalled, vloop.HorizonExceeded) as e:
+            from vlib.runner import HarnessError
+
+            raise HarnessError(f'C09 raw classic set-up did not complete: {type(e).__name__}') from e
+        labels.add('rawcl')
+        labels.add(f'rawcl_carrier:{carrier}')
+        try:
+            for step, op in enumerate(ops):
+                cur['step'] = step
+                do_op(op)
+                if loop.budget_hit:
+                    labels.add('iteration_budget_hit')
+                    break
+                check()
+        except _Stop:
+            labels.add('violation')
+        ctx.case(('rc', carrier, npsm, ops), flags['nontrivial'], labels, sample={'rawcl': [carrier, npsm, ops[:10]]})
+    finally:
+        loop.shutdown()
+
+
+# ---------------------------------------------------------------------------
+def fill_world_cases():
+    """Directed: fill the 64 dynamic LE CIDs of one connection (second link idle), probe the boundary, free and re-use."""
+    cases = []
+    delay_sets = [[[], [], [], []], [[1], [2], [0, 3], []], [[0, 5], [1], [2, 2], []]]
+    for transport in ('le', 'le+cl'):
+        for pattern in (0, 1, 2):  # who opens: the central / alternating / the peripheral
+            for ci in (0, 31, 63):  # which channel is closed first at exhaustion: lowest CID / middle / highest
+                for cs in (0, 1):  # who closes it
+                    def sd(j, pattern=pattern):
+                        return (0, j % 2, 1)[pattern]
+                    s = sd(ci + cs)
+                    ops = []
+                    if transport == 'le+cl':
+                        # two classic channels take the two lowest identifiers of the shared table
+                        ops += [['open', 'cl', 0, sd(0), 0, 1, -1], ['open', 'cl', 0, sd(1), 1, 1, -1]]
+                    ops += [['open', 'enh', 0, sd(j), j % 3, 5, -1] for j in range(12)]
+                    ops += [['open', 'le', 0, sd(j), j % 3, 1, -1] for j in range(2 if transport == 'le+cl' else 4)]
+                    ops += [
+                        ['open', 'le', 1, s, 0, 1, -1],        # the other link is not concerned: must succeed
+                        ['open', 'le', 0, s, 0, 1, -1],        # full: refusal, nothing may be left behind
+                        ['open', 'enh', 0, 1 - s, 1, 2, -1],   # full
+                        ['refuse', 'le', 0, s, -1],
+                        ['close', ci, cs, -1],
+                        ['open', 'le', 0, 1 - s, 2, 1, -1],    # exactly one identifier free: must succeed
+                        ['open', 'le', 0, s, 0, 1, -1],        # full again
+                        ['close', (ci + 5) % 50, 1 - cs, -1],
+                        ['close', (ci + 9) % 50, cs, -1],
+                        ['open', 'enh', 0, s, 0, 3, -1],       # two free, three asked: refusal, the two stay free
+                        ['open', 'enh', 0, s, 1, 2, -1],       # must succeed
+                        ['cut', 0, cs, -1],
+                        ['reconnect', 0],
+                        ['open', 'enh', 0, s, 0, 5, -1],
+                        ['open', 'le', 1, 1 - s, 0, 1, -1],
+                    ]
+                    cases.append({'kind': 'world', 'transport': transport, 'nper': 2, 'npsm': 3,
+                                  'delays': delay_sets[len(cases) % 3], 'ops': ops})
+    return cases
+
+
+def cutpoint_world_cases(quick):
+    """Directed: one operation of every kind is started, the link is cut t ms later by either end (t sweeps the whole
+    duration of the operation under two HCI delay profiles), the link comes back and channels are opened again."""
+    cases = []
+    times = (0, 1, 3, 6, 10, 15) if quick else tuple(range(0, 35))
+    for transport, kind in (('le', 'le'), ('le', 'enh'), ('classic', 'cl'), ('le+cl', 'cl'), ('le+cl', 'le')):
+        for target in ('open', 'close', 'close_both', 'close_abort', 'drain'):
+            if target == 'drain' and kind == 'cl':
+                continue
+            for ti, t in enumerate(times):
+                for cs in ((ti % 2,) if quick else (0, 1)):
+                    s = (t + cs) % 2
+                    op = {'open': ['open', kind, 0, s, 2, 3, t], 'close': ['close', 0, s, t],
+                          'close_both': ['close_both', 0, s, 1, t], 'close_abort': ['close_abort', 0, s, 2, t],
+                          'drain': ['drain', 0, s, 300, t]}[target]
+                    ops = [['open', kind, 0, s, 0, 2, -1], ['open', kind, 0, 1 - s, 1, 1, -1], op,
+                           ['cut', -1, cs, -1], ['reconnect', 0], ['open', kind, 0, 1 - s, 0, 2, -1],
+                           ['close', 0, s, -1], ['open', kind, 0, s, 1, 1, -1]]
+                    delays = [[1, 2], [2], [3, 1], []] if (t + len(cases)) % 2 else [[0, 3], [5], [1], []]
+                    cases.append({'kind': 'world', 'transport': transport, 'nper': 2, 'npsm': 3, 'delays': delays, 'ops': ops})
+    return cases
+
+
+def fill_raw_cases():
+    """Directed: the DUT fills its 64 identifiers against the raw peer (asymmetric CIDs), boundary probes, re-use."""
+    cases = []
+    for k in (0, 31, 63):
+        for side in (0, 1):
+            ops = [['dopen', 'enh', 5, j % 5] for j in range(12)] + [['dopen', 'le', 1, j] for j in range(4)]
+            ops += [
+                ['dopen', 'le', 1, 0],          # full: local refusal
+                ['dopen', 'enh', 2, 0],         # full
+                ['ropen', 0x80, 0],             # full: the peer asks with a CID of its own that is free
+                ['rclose', k],
+                ['ropen', -1, 1],               # one identifier free, the peer re-uses the CID it just closed
+                ['dopen', 'le', 1, 1],          # full again
+                ['dclose', k],
+                ['dopen', 'le', 1, 2],          # must succeed
+                ['rclose', (k + 7) % 60],
+                ['dabort' if side else 'dclose', (k + 11) % 60],
+                ['dopen', 'enh', 3, 0],         # two free, three asked
+                ['dopen', 'enh', 2, 3],         # must succeed
+                ['cut', side],
+                ['reconnect'],
+                ['dopen', 'enh', 5, 0],
+                ['ropen', 0, 0],
+            ]
+            cases.append({'kind': 'raw', 'npsm': 1 + (k + side) % 3, 'ops': ops})
+    return cases
+
+
+def wrap_raw_cases():
+    """Directed: the per-connection signalling identifier (1..255, cyclic) wraps while the very first request of the
+    connection is still unanswered; the request that would re-use its identifier; then the link goes away."""
+    cases = []
+    for first in ('le', 'enh'):
+        for second in ('le', 'enh'):
+            ops = [['dopen_mute', first]]
+            for i in range(127):  # 254 further identifiers: 2..255
+                ops += [['dopen', 'le', 1, i % 5], ['dclose', 0]]
+            ops += [['dopen', second, 2, 0],  # would carry identifier 1 again
+                    ['dopen', second, 2, 1], ['cut', len(cases) % 2], ['reconnect'], ['dopen', 'le', 1, 0]]
+            cases.append({'kind': 'raw', 'npsm': 1, 'ops': ops})
+    return cases
+
+
+def rawcl_waiter_cases():
+    """Directed: every kind of pending classic operation x every way its channel or link goes away, then re-open."""
+    cases = []
+    pend_ops = {
+        'dopen_mute': ['dopen', 1, 'mute', 2, 0], 'dopen_config_mute': ['dopen', 1, 'config_mute', 2, 0],
+        'dopen_config_reject': ['dopen', 1, 'config_reject', 2, 0], 'dclose_mute': ['dclose', 1, 'mute'],
+        'ropen_stall': ['ropen', 2, 1, 'stall'],
+    }
+    for carrier in ('le', 'bredr'):
+        for pend, pend_op in pend_ops.items():
+            for rel in ('cut0', 'cut1', 'rclose', 'dabort'):
+                if rel == 'rclose' and pend == 'dopen_mute':
+                    continue  # the peer has no channel it could close
+                if rel == 'dabort' and pend.startswith('dopen'):
+                    continue  # the application holds no channel object yet
+                target = 1 if pend == 'dclose_mute' else 2
+                ops = [['ropen', 1, 0, 'full'], ['dopen', 0, 'ok', 3, 0], pend_op]
+                if rel.startswith('cut'):
+                    ops += [['cut', int(rel[3])], ['reconnect']]
+                else:
+                    ops += [[rel, target]]
+                ops += [['dopen', 0, 'ok', 0, 0], ['ropen', 0, 0, 'full'], ['rclose', 0], ['dclose', 0, 'ok'],
+                        ['dopen', 2, 'ok', 1, 0]]
+                cases.append({'kind': 'rawcl', 'carrier': carrier, 'npsm': 3, 'ops': ops})
+    return cases
+
+
 def run(ctx) -> None:
     vloop.selftest()
     max_ops = ctx.pick(15, 40)
+    # directed families first; every shard runs them (they are small and their labels have floors)
+    for c in fill_world_cases():
+        run_world_case(ctx, c)
+        ctx.label('family:fill_world')
+    for i, c in enumerate(cutpoint_world_cases(ctx.quick)):
+        if i % ctx.nshards == ctx.shard:
+            run_world_case(ctx, c)
+            ctx.label('family:cutpoints')
+    for c in fill_raw_cases():
+        run_raw_case(ctx, c)
+        ctx.label('family:fill_raw')
+    for c in wrap_raw_cases():
+        run_raw_case(ctx, c)
+        ctx.label('family:wrap_raw')
+    for c in rawcl_waiter_cases():
+        run_rawcl_case(ctx, c)
+        ctx.label('family:rawcl_waiters')
     ctx.hyp('world', lambda c: run_world_case(ctx, c), world_cases(max_ops), max_examples=ctx.n(1100, 36000))
-    ctx.hyp('raw', lambda c: run_raw_case(ctx, c), raw_ops(max_ops), max_examples=ctx.n(400, 12000))
+    ctx.hyp('raw', lambda c: run_raw_case(ctx, c), raw_ops(max_ops), max_examples=ctx.n(450, 12000))
+    ctx.hyp('rawcl', lambda c: run_rawcl_case(ctx, dict(c, kind='rawcl')), rawcl_ops(max_ops), max_examples=ctx.n(400, 10000))
     for label in (
         'reopen_after_close', 'reopen_after_refusal', 'reopen_after_abort', 'concurrent_two_links',
         'cut_with_pending_op', 'cut_by_central', 'cut_by_peripheral', 'close_by_central', 'close_by_peripheral',
         'kind:le', 'kind:enh', 'kind:cl', 'transport:classic', 'links:2', 'links:3', 'drain_unsent', 'reconnect',
         'raw_cid_reuse', 'dut_open_unanswered', 'abort', 'close_collision', 'independence_checked',
         'closed_before_open_returned',
+        # extension: abort of a channel whose disconnect() is pending; crossed opens / asymmetric CID pairs; request sizes
+        'abort_while_closing', 'abort_while_closing_orphan', 'crossed_opens_same_link', 'asym_cids', 'enh_n:4', 'enh_n:5',
+        'refusal_shape:enh:0', 'refusal_shape:enh:1', 'refusal_shape:enh:2', 'dut_reopen_after_refusal',
+        # extension: raw classic peer
+        'rawcl_carrier:le', 'rawcl_carrier:bredr', 'rawcl_dut_open_ok', 'rawcl_peer_open_ok', 'rawcl_asym_cids',
+        'rawcl_answer:pending_ok', 'rawcl_answer:refuse', 'rawcl_answer:pending_refuse', 'rawcl_answer:mute',
+        'rawcl_answer:config_mute', 'rawcl_answer:config_reject', 'rawcl_closed_in_config', 'rawcl_peer_open_stalled',
+        'rawcl_close_unanswered', 'rawcl_collision', 'rawcl_cid_reuse', 'rawcl_reopen_after_close',
+        'rawcl_reopen_after_refusal', 'rawcl_reopen_after_abort', 'rawcl_cut_with_pending', 'rawcl_peer_close:config',
     ):
         ctx.floor(label, 10)
+    # the directed waiter family reaches each of these exactly twice (once per carrier)
+    for label in ('rawcl_peer_close:closing', 'rawcl_abort:closing', 'rawcl_abort:config'):
+        ctx.floor(label, 2)
+    # extension: boundary of the identifier space (directed families: one label per case)
+    if ctx.nshards == 1:  # the cut-point family is sharded in the thorough tier
+        for label in ('cut_during:open:le', 'cut_during:open:enh', 'cut_during:open:cl', 'cut_during:close:le',
+                      'cut_during:close:enh', 'cut_during:close:cl', 'cut_during:drain:le'):
+            ctx.floor(label, 5)
+    ctx.floor('dut_identifier_wrapped', 4)
+    ctx.floor('open_excused:identifier_awaited', 1)
+    for label in ('cid_space_full', 'open_excused:cid_exhaustion', 'open_into_last_free_cids', 'open_while_other_link_full',
+                  'raw_refused_at_exhaustion'):
+        ctx.floor(label, 5)
 
 
 def replay(ctx, case) -> None:
@@ -1188,5 +2108,7 @@ def replay(ctx, case) -> None:
         run_world_case(ctx, case)
     elif case['kind'] == 'raw':
         run_raw_case(ctx, case)
+    elif case['kind'] == 'rawcl':
+        run_rawcl_case(ctx, case)
     else:
         raise ValueError(case['kind'])
